@@ -29,7 +29,8 @@
 (***************************************************************************)
 EXTENDS Integers, Sequences, FiniteSets, TLC, Json
 
-CONSTANTS Kinds, MaxNest, MaxSteps, ClearActive, ObjAfterMsg, ObjKeptInCatch, Emit
+\* FilterTry: "off" | "asfound" | "kept" (see ThrowFilterTry)
+CONSTANTS Kinds, MaxNest, MaxSteps, ClearActive, ObjAfterMsg, ObjKeptInCatch, FilterTry, Emit
 
 VARIABLES cs,        \* lexical context: sequence of [f |-> filter, pc |-> "body" | "handler"]
           depth, active, obj,      \* the machine
@@ -111,6 +112,24 @@ ThrowCmpNested(e, k) ==
         ref' = IF r = 0 THEN Append(ref, <<"uncaught", e>>) ELSE Append(ref, <<"h", r, e>>)
      /\ Land(MachTarget(cs, i - 1, depth - 1, mobj), mobj, FALSE)
 
+(* throw e where the FILTER EXPRESSION of the innermost open construct runs a complete try / catch of its own before it yields  *)
+(* the kinds (catch (e in pick()) ...): block structure says this is a throw of e like any other.  The machine: longjmp,        *)
+(* try_fail, try_end, then the filter expression: the inner exception_try clears the active flag; exception_catch finds         *)
+(* nothing pending and returns NULL - no handler runs, nothing propagates, control goes on behind the construct                 *)
+(* (FilterTry = "asfound"; "kept" = a design that keeps the pending exception across the inner try; "off" = no such filters:    *)
+(* the open finding F-C07-filter-expression-runs-try, Exc_finding_filtertry.cfg is its model side)                              *)
+ThrowFilterTry(e) ==
+  /\ FilterTry # "off" /\ BodyIdx(cs) # {}
+  /\ Tick([op |-> "throwfiltertry", e |-> e])
+  /\ LET r == RefTarget(cs, e) IN
+     ref' = IF r = 0 THEN Append(ref, <<"uncaught", e>>) ELSE Append(ref, <<"h", r, e>>)
+  /\ IF FilterTry = "kept"
+     THEN obj' = e /\ Land(MachTarget(cs, Len(cs), depth, e), e, FALSE)
+     ELSE LET i == Max(BodyIdx(cs)) IN
+          /\ obj' = e /\ active' = FALSE /\ depth' = depth - 1
+          /\ cs' = SubSeq(cs, 1, i - 1)                              \* behind the construct, as if it had completed
+          /\ UNCHANGED <<out, halted>>
+
 (* the body of the innermost construct completes normally: exception_try_end, then exception_catch decides *)
 EndBody ==
   /\ Tick([op |-> "endbody"]) /\ cs # <<>> /\ cs[Len(cs)].pc = "body"
@@ -132,6 +151,7 @@ Next == \/ \E f \in Filters : EnterTry(f)
         \/ \E e \in Kinds : Throw(e)
         \/ \E e, k \in Kinds : e # k /\ ThrowNested(e, k)
         \/ \E e, k \in Kinds : e # k /\ ThrowCmpNested(e, k)
+        \/ \E e \in Kinds : ThrowFilterTry(e)
         \/ Mark \/ EndBody \/ EndHandler
 Spec == Init /\ [][Next]_vars
 
